@@ -168,9 +168,10 @@ def paths(ctx, remap=None, only=None):
                     returned = ev_[0] == "agg" and ev_[2] == "StreamWriteError" and ev_[3] and look(ev_[3][0])[0] == "field" and look(ev_[3][0])[1][0] == "downcast" and look(ev_[3][0])[1][2] == "Err" and norm(look(look(ev_[3][0])[1][1])) == norm(s[4])
                 ctx.ob("R06.4", "serialize-error-propagated", returned and not sc, "a serialization error is returned and the stream is not touched", fn.loc(lf.bb))
                 continue
-            ok_store = len(stores) >= 1 and stores[0][4][0] == "agg" and stores[0][4][2] == "Some"
+            somes = [x for x in stores if x[4][0] == "agg" and x[4][2] == "Some"]       # `= None` after a full write is the take, not the store
+            ok_store = len(somes) == 1
             if ok_store:
-                v = look(stores[0][4][3][0])
+                v = look(somes[0][4][3][0])
                 while v[0] == "mut":
                     if v[2] == "response::Response::write_all":
                         pass
